@@ -23,14 +23,14 @@ tvars == <<vars, l, cid, done, tcfg, tstore, tprev, tprevCreates, tstreak, tmap>
 
 Rec == TraceLog[l]
 
-Sum(p) == CASE p = "P1" -> "S1" [] p = "P2" -> "S2" [] p = "P3" -> "S3" [] OTHER -> "S2"
+Sum(p) == CASE p = "P1" -> "S1" [] p = "P2" -> "S2" [] p = "P3" -> "S3" [] p = "P5" -> "S5" [] p = "P6" -> "S6" [] OTHER -> "S2"
 \* recorded comment -> comment of the spec; the text is its interned id plus the problems of that file it spells out
 AbsText(path, tid, carries) == [id |-> tid, m |-> {p \in Problems : PFile(p) = path /\ Sum(p) \in RangeSeq(carries)}]
 AbsComment(c) == [path |-> c.path, line |-> c.line, text |-> AbsText(c.path, c.tid, c.carries), nl |-> c.nl, mine |-> c.mine]
 AbsComments(s) == [k \in 1..Len(s) |-> AbsComment(s[k])]
 AbsPending(s) == [k \in 1..Len(s) |-> [path |-> s[k].path, line |-> s[k].line, text |-> AbsText(s[k].path, s[k].tid, s[k].carries)]]
 
-TraceInit == Init /\ l = 1 /\ cid = 0 /\ done = FALSE /\ tcfg = [plat |-> "none", max |-> 0, strip |-> FALSE, pad |-> 0, padf |-> 0]
+TraceInit == Init /\ l = 1 /\ cid = 0 /\ done = FALSE /\ tcfg = [plat |-> "none", max |-> 0, strip |-> FALSE, pad |-> 0, padf |-> 0, showdup |-> FALSE]
              /\ tstore = <<>> /\ tprev = NoInp /\ tprevCreates = 0 - 1 /\ tstreak = 0 /\ tmap = {}
 
 \* pairs <<text of the spec, interned id of the real text>> seen in this case must be a bijection
@@ -39,7 +39,7 @@ Bijective(S) == \A a, b \in S : (a[1] = b[1]) <=> (a[2] = b[2])
 TCase ==
   /\ l <= Len(TraceLog) /\ Rec.ev = "Case"
   /\ cid' = Rec.id
-  /\ tcfg' = [plat |-> Rec.plat, max |-> Rec.max, strip |-> Rec.strip, pad |-> Rec.pad, padf |-> Rec.padf]
+  /\ tcfg' = [plat |-> Rec.plat, max |-> Rec.max, strip |-> Rec.strip, pad |-> Rec.pad, padf |-> Rec.padf, showdup |-> Rec.showdup]
   /\ tstore' = AbsComments(Rec.store)
   /\ tprev' = NoInp /\ tprevCreates' = 0 - 1 /\ tstreak' = 0
   /\ tmap' = {<<[g |-> Rec.store[k].atext.g, m |-> RangeSeq(Rec.store[k].atext.m), s |-> Rec.store[k].atext.s], Rec.store[k].tid>> :
